@@ -215,8 +215,8 @@ PROPS = {
         module="Bita.Props.C02",
         level="proof",
         needs_bita=True,
-        required_theorems=["seeds_irrelevant", "feeds_exact", "clone_steps_as_modelled"],
-        suites=dict(quick=[("py", "c02_seeds")], thorough=[("py", "c02_seeds")]),
+        required_theorems=["seeds_irrelevant", "feeds_exact", "clone_steps_as_modelled", "cli_seeds_as_given"],
+        suites=dict(quick=[("py", "c02_seeds"), ("l1", "opts")], thorough=[("py", "c02_seeds"), ("l1", "opts")]),
         rule="CLI clone scenarios: seeds from {unrelated, the source, edited copies, empty, same size other content, reordered halves}, "
              "optional stdin seed, optional in-place prior (edited source or junk), block-device hook, local or scripted HTTP archive; "
              "oracle: output == source; model: result, output digest, exact fetched ranges",
@@ -347,8 +347,8 @@ PROPS = {
         module="Bita.Props.C14",
         level="proof",
         needs_bita=True,
-        required_theorems=["facts_as_expected", "pin_length_checked_fact", "refused_invalid_archive", "refused_pin_mismatch", "refused_output_exists", "refused_small_device", "compress_refused_output_exists"],
-        suites=dict(quick=[("py", "c14_refusals")], thorough=[("py", "c14_refusals")]),
+        required_theorems=["facts_as_expected", "pin_length_checked_fact", "refused_invalid_archive", "refused_pin_mismatch", "refused_output_exists", "refused_small_device", "compress_refused_output_exists", "cli_refused_output_exists", "cli_pin_is_never_dropped"],
+        suites=dict(quick=[("py", "c14_refusals"), ("l1", "opts")], thorough=[("py", "c14_refusals"), ("l1", "opts")]),
         rule="the full table (90 clone rows + 4 compress rows per repetition, random pre-existing content); oracle: refused => non-zero exit, "
              "output byte-identical / still absent; proceeds => output == source (block device: prefix, length kept)",
         trusted_base=LEAN_TB + ["POSIX open/ftruncate semantics", "the is_block_dev hook (cfg oll3_bita_verif)"],
@@ -372,7 +372,7 @@ PROPS = {
         module="Bita.Props.C15",
         level="proof",
         needs_bita=True,
-        required_theorems=["tryInit_total", "accepted_archive_is_safe", "scan_is_bounded", "accepted_iff_valid", "accepted_archive_scan_is_bounded", "server_bytes_safe", "remote_open_total", "local_open_total", "local_header_read_allocation_bounded", "remote_header_read_buffering_bounded", "decoded_chunk_follows_declared_sizes", "accepted_archive_ranges_fit_u64", "remote_reader_sums_are_chunk_ends", "decoded_chunk_has_declared_size"],
+        required_theorems=["tryInit_total", "accepted_archive_is_safe", "scan_is_bounded", "accepted_iff_valid", "accepted_archive_scan_is_bounded", "server_bytes_safe", "remote_open_total", "local_open_total", "local_header_read_allocation_bounded", "remote_header_read_buffering_bounded", "decoded_chunk_follows_declared_sizes", "accepted_archive_ranges_fit_u64", "remote_reader_sums_are_chunk_ends", "decoded_chunk_has_declared_size", "accepted_archive_chunker_allocation_bounded", "accepted_archive_scan_buffer_bounded", "chunker_wants_data_only_below_max"],
         suites=dict(quick=[("l1", "fmt"), ("py", "c15_cli"), ("l1", "c08-http"), ("l1", "c08-io")], thorough=[("l1", "fmt"), ("py", "c15_cli"), ("l1", "c08-http"), ("l1", "c08-io")]),
         rule="library: random/wild dictionaries under header::build, wire-level crafted dictionaries and declared-size/offset lies under a "
              "recomputed checksum, bit flips, truncations, random bytes; CLI: 22 field mutations x 4 commands + 13 server scripts; "
